@@ -4,7 +4,6 @@ import json, os
 HERE = os.path.dirname(os.path.abspath(__file__))
 
 NA = {
- "C03": "state machine over Mutex<HashMap<PaymentId,..>> driven by events, monitor replays and restarts; no bounded integer kernel carries truthfulness; out of reach for Kani (hash maps, secp256k1) and for the MIR encoder (DESIGN.md §5 C03)",
  "C09": "ordering constraint between ChannelManager and ChainMonitor event streams (locks, hash maps, background events); no function-level input/output relation to encode (DESIGN.md §5 C09)",
  "C10": "whole-program crash/restart property: deserialisation of manager+monitors followed by arbitrary later behaviour; not encodable within reach (DESIGN.md §5 C10)",
 }
@@ -56,6 +55,9 @@ claim("C13", "M+K", "Kani/CBMC bounded model checking of the compiled codecs; SM
 claim("C14", "K", K,
       "Kernel level (narrow): AttributionData layout - shift_right/shift_left inverse on the retained bytes, hold-time and HMAC slot movement - for fully symbolic 920-byte contents. Onion construction/peeling and all cryptography are outside the claim.",
       "trusted: Kani/CBMC")
+claim("C03", "M", "SMT bounded model checking of MIR (z3 + cvc5 portfolio)",
+      "Kernel level (narrow): the payer's bookkeeping of one outbound payment - OutboundPayments::claim_htlc, fail_htlc, abandon_payment and add_new_pending_payment executed from the MIR on one entry of the pending-payment map in each state (Legacy / Retryable / Fulfilled / Abandoned, awaiting-invoice states for abandon), fields symbolic: PaymentSent is queued exactly once, when a claim meets a payment not yet fulfilled, and never for an unknown id; a fulfilled payment is never reported failed; a failed in-flight HTLC is reported once and PaymentFailed is queued exactly when it was the last HTLC of an abandoned payment - at most once, after the path failure, carrying the completion action - and the entry is dropped then and only then; duplicate failures and claims change nothing; abandoning reports failure at once only with no HTLC in flight and never un-fulfils a payment; a payment id in use is refused. The in-flight set is abstracted to its size, onion-failure decoding / hashing / the retry policy are free. Replayed on three live nodes (five payment scenarios driven by the library's test utilities, which assert the payer's events at every step). That the ChannelManager calls these functions exactly when HTLCs resolve (off-chain, on-chain, after restart), balances, retries and event replay across restarts are outside the claim.",
+      "trusted: rustc MIR dump, engine_m, z3/cvc5; summaries of PendingOutboundPayment::remove / remaining_parts checked against their MIR per variant (C03.m)")
 claim("C15", "M", "SMT bounded model checking of MIR (z3 + cvc5 portfolio)",
       "Kernel level: (a) the nonce / key-rotation kernel of PeerChannelEncryptor - one message across encrypt_message_with_header_0s, decrypt_length_header and decrypt_message from an arbitrary coupled post-handshake state (an inductive step over any number of messages and key rotations): the message is accepted with its length and both sides stay in step, nonces are consecutive and never reused, keys rotate exactly at nonce 1000 on both sides, an altered header or body is rejected; AEAD and HKDF abstracted (keys as identities, decryption succeeds iff same key, nonce and unaltered bytes). (c) one iteration of the read loop of PeerManager::do_read_event from an arbitrary loop-head state: partial reads, completed length headers, bodies and handshake acts are reassembled for reads of any size, authentication failures and lengths below 2 drop the connection, the buffer invariant is preserved, no slice index can go out of range. (d) do_handle_message_holding_peer_lock / handle_message: nothing but Init is accepted before Init, a second Init is refused, a refused message is not handled. Replayed with two real encryptors (hook), with two real PeerManagers over in-memory sockets cut into fragments of ten sizes, and [d] through a raw initiator (hook). The handshake cryptography, write-side back-pressure and panics on arbitrary handshake bytes are outside the claim.",
       "trusted: rustc MIR dump, engine_m, z3/cvc5; crypto abstraction and the stubs of the read loop listed in the evidence")
@@ -63,7 +65,7 @@ claim("C19", "M", "SMT bounded model checking of MIR (z3 + cvc5 portfolio), asyn
       "Kernel level (narrow): the store operations the incremental-update persister (MonitorUpdatingPersisterAsyncInner, which the synchronous MonitorUpdatingPersister wraps) issues - update_persisted_channel, its synchronous part and its three async blocks executed for real: an update is written incrementally under its own id iff it is not the legacy id, incremental updates are enabled and the id is not a multiple of maximum_pending_updates, otherwise the full monitor is written (exactly one of the two); superseded updates are cleaned up only after a full write that succeeded, bounded by the update id of the monitor just written; success is reported iff the write succeeded. cleanup_in_range removes exactly start..=end; cleanup_stale_updates_for_monitor_to never removes an update above the stored monitor's id (<= 3 / 4 listed names). The key-value store is a stub with free outcomes; replayed on two live nodes persisting through the real persister (eight values of maximum_pending_updates), reading the store back after every payment. The stores themselves (FilesystemStore atomicity, threads), the recovery path's joined / batched reads and crash points between two store operations are outside the claim.",
       "trusted: rustc MIR dump, engine_m (coroutine state values), z3/cvc5")
 claim("C20", "M", "SMT bounded model checking of MIR (z3 + cvc5 portfolio), async bodies executed through their poll functions",
-      "Function level over lightning-block-sync's MIR, block hashes as identities, chain work as integers, every awaited future immediately ready with an arbitrary answer: check_builds_on (a parent must be named by hash, be one lower and account for the chain work; mainnet difficulty rules); ChainPoller's three async blocks (a parent / tip / block is accepted from a source only if it hashes - proof of work - to exactly the hash asked for; Better only with strictly more work); find_difference_from_header (most recent common ancestor and the contiguous list of blocks to connect, both tips <= 2 (quick) / 3 (thorough) blocks above it, arbitrary tree); connect_blocks (oldest first, each once, stops at the first failed fetch and reports the tip reached; <= 3 / 5 blocks); synchronize_listener (disconnect to the ancestor before connecting, nothing touched if the walk fails); update_chain_tip / poll_best_tip (the client's tip is where the listeners are; only Better tips move them). Counterexamples are replayed on the real SpvClient over ~900 fork shapes x source behaviours with a native validator of the notification sequence. Start-up synchronisation (init::synchronize_listeners), the header cache's eviction, proof-of-work / merkle validation itself and the HTTP sources are outside the claim.",
+      "Function level over lightning-block-sync's MIR, block hashes as identities, chain work as integers, every awaited future immediately ready with an arbitrary answer: check_builds_on (a parent must be named by hash, be one lower and account for the chain work; mainnet difficulty rules); ChainPoller's three async blocks (a parent / tip / block is accepted from a source only if it hashes - proof of work - to exactly the hash asked for; Better only with strictly more work); find_difference_from_header (most recent common ancestor and the contiguous list of blocks to connect, both tips <= 2 (quick) / 3 (thorough) blocks above it, arbitrary tree); connect_blocks (oldest first, each once, stops at the first failed fetch and reports the tip reached; <= 3 / 5 blocks); synchronize_listener (disconnect to the ancestor before connecting, nothing touched if the walk fails); update_chain_tip / poll_best_tip (the client's tip is where the listeners are; only Better tips move them). Counterexamples are replayed on the real SpvClient over 2000 fork shapes x source behaviours x tip changes with a native validator of the notification sequence. Start-up synchronisation (init::synchronize_listeners), the header cache's eviction, proof-of-work / merkle validation itself and the HTTP sources are outside the claim.",
       "trusted: rustc MIR dump, engine_m (coroutine state values), z3/cvc5")
 claim("C18", "M+K", "Kani/CBMC bounded model checking of the BOLT-11 codecs; SMT bounded model checking of MIR (z3 + cvc5) for the BOLT-12 signing-key rule",
       "Kernel level (narrow): BOLT-11 integer <-> 5-bit group codec (mutually inverse, canonical, size function), amount x SI-prefix arithmetic never wraps, PositiveTimestamp bounds; for all u64 (Kani). BOLT-12 check_invoice_signing_pubkey: Ok iff the signing key is the offer's issuer id, or - without an issuer id - the final blinded node id of one of its paths; public keys as abstract identities, <= 2 paths of <= 2 hops (engine M). Bech32 checksum, signatures, tagged fields, merkle hashing and metadata verification are outside the claim.",
